@@ -1,5 +1,5 @@
 use crate::compiler::prelude::*;
-use crate::stdlib::ip_utils::to_key;
+use crate::stdlib::ip_utils::{to_key, to_pfx_key};
 use ipcrypt_rs::{Ipcrypt, IpcryptPfx};
 use std::net::IpAddr;
 
@@ -31,12 +31,12 @@ fn decrypt_ip(ip: &Value, key: Value, mode: &Value) -> Resolved {
         },
         "pfx" => match ip_addr {
             IpAddr::V4(ipv4) => {
-                let key = to_key::<32>(key, "pfx", ip_ver_label)?;
+                let key = to_pfx_key(key, ip_ver_label)?;
                 let ipcrypt_pfx = IpcryptPfx::new(key);
                 ipcrypt_pfx.decrypt_ipaddr(IpAddr::V4(ipv4))
             }
             IpAddr::V6(ipv6) => {
-                let key = to_key::<32>(key, "pfx", ip_ver_label)?;
+                let key = to_pfx_key(key, ip_ver_label)?;
                 let ipcrypt_pfx = IpcryptPfx::new(key);
                 ipcrypt_pfx.decrypt_ipaddr(IpAddr::V6(ipv6))
             }
